@@ -33,16 +33,16 @@ func init() {
 		Run: runC11,
 	})
 	mutant(&Mutant{Name: "c11-math-error-swallowed", Property: "C11", File: "html/html.go",
-		Old: "\t\t\tif err := m.MinifyMimetype(mathMimeBytes, w, buffer.NewReader(t.Data), nil); err != nil {\n\t\t\t\tif err != minify.ErrNotExist {\n\t\t\t\t\treturn minify.UpdateErrorPosition(err, z, t.Offset)\n\t\t\t\t}\n\t\t\t\tw.Write(t.Data)\n\t\t\t}\n",
-		New: "\t\t\tif err := m.MinifyMimetype(mathMimeBytes, w, buffer.NewReader(t.Data), nil); err != nil {\n\t\t\t\tw.Write(t.Data)\n\t\t\t}\n",
+		Old:  "\t\t\tif err := m.MinifyMimetype(mathMimeBytes, w, buffer.NewReader(t.Data), nil); err != nil {\n\t\t\t\tif err != minify.ErrNotExist {\n\t\t\t\t\treturn minify.UpdateErrorPosition(err, z, t.Offset)\n\t\t\t\t}\n\t\t\t\tw.Write(t.Data)\n\t\t\t}\n",
+		New:  "\t\t\tif err := m.MinifyMimetype(mathMimeBytes, w, buffer.NewReader(t.Data), nil); err != nil {\n\t\t\t\tw.Write(t.Data)\n\t\t\t}\n",
 		Rule: "R11.1", Construct: "case html.MathToken"})
 	mutant(&Mutant{Name: "c11-style-attr-partial-output", Property: "C11", File: "html/html.go",
-		Old: "\t\t\t\t\t\t\tif err := m.MinifyMimetype(cssMimeBytes, attrMinifyBuffer, buffer.NewReader(val), inlineParams); err == nil {\n\t\t\t\t\t\t\t\tval = attrMinifyBuffer.Bytes()\n\t\t\t\t\t\t\t} else if err != minify.ErrNotExist {\n\t\t\t\t\t\t\t\treturn minify.UpdateErrorPosition(err, z, attr.Offset)\n\t\t\t\t\t\t\t}\n",
-		New: "\t\t\t\t\t\t\tif err := m.MinifyMimetype(cssMimeBytes, attrMinifyBuffer, buffer.NewReader(val), inlineParams); err == nil || err == minify.ErrNotExist {\n\t\t\t\t\t\t\t\tval = attrMinifyBuffer.Bytes()\n\t\t\t\t\t\t\t} else {\n\t\t\t\t\t\t\t\treturn minify.UpdateErrorPosition(err, z, attr.Offset)\n\t\t\t\t\t\t\t}\n",
+		Old:  "\t\t\t\t\t\t\tif err := m.MinifyMimetype(cssMimeBytes, attrMinifyBuffer, buffer.NewReader(val), inlineParams); err == nil {\n\t\t\t\t\t\t\t\tval = attrMinifyBuffer.Bytes()\n\t\t\t\t\t\t\t} else if err != minify.ErrNotExist {\n\t\t\t\t\t\t\t\treturn minify.UpdateErrorPosition(err, z, attr.Offset)\n\t\t\t\t\t\t\t}\n",
+		New:  "\t\t\t\t\t\t\tif err := m.MinifyMimetype(cssMimeBytes, attrMinifyBuffer, buffer.NewReader(val), inlineParams); err == nil || err == minify.ErrNotExist {\n\t\t\t\t\t\t\t\tval = attrMinifyBuffer.Bytes()\n\t\t\t\t\t\t\t} else {\n\t\t\t\t\t\t\t\treturn minify.UpdateErrorPosition(err, z, attr.Offset)\n\t\t\t\t\t\t\t}\n",
 		Rule: "R11.1", Construct: "MinifyMimetype(cssMimeBytes"})
 	mutant(&Mutant{Name: "c11-svg-notexist-drops-style", Property: "C11", File: "svg/svg.go",
-		Old: "\t\t\t\t\tif err != minify.ErrNotExist {\n\t\t\t\t\t\treturn minify.UpdateErrorPosition(err, z, t.Offset)\n\t\t\t\t\t}\n\t\t\t\t\tw.Write(t.Data)\n\t\t\t\t}\n\t\t\t} else {",
-		New: "\t\t\t\t\tif err != minify.ErrNotExist {\n\t\t\t\t\t\treturn minify.UpdateErrorPosition(err, z, t.Offset)\n\t\t\t\t\t}\n\t\t\t\t}\n\t\t\t} else {",
+		Old:  "\t\t\t\t\tif err != minify.ErrNotExist {\n\t\t\t\t\t\treturn minify.UpdateErrorPosition(err, z, t.Offset)\n\t\t\t\t\t}\n\t\t\t\t\tw.Write(t.Data)\n\t\t\t\t}\n\t\t\t} else {",
+		New:  "\t\t\t\t\tif err != minify.ErrNotExist {\n\t\t\t\t\t\treturn minify.UpdateErrorPosition(err, z, t.Offset)\n\t\t\t\t\t}\n\t\t\t\t}\n\t\t\t} else {",
 		Rule: "R11.1", Construct: "svg.Minifier.Minify/case xml.TextToken"})
 	mutant(&Mutant{Name: "c11-onclick-not-inline", Property: "C11", File: "html/html.go",
 		Old: "m.MinifyMimetype(jsMimeBytes, attrMinifyBuffer, buffer.NewReader(val), inlineParams)", New: "m.MinifyMimetype(jsMimeBytes, attrMinifyBuffer, buffer.NewReader(val), nil)",
@@ -57,14 +57,66 @@ func init() {
 		Old: "\t\t\t\t\t\tif rawTagHash != 0 && attr.Hash == Type {\n\t\t\t\t\t\t\trawTagMediatype = parse.Copy(val)\n\t\t\t\t\t\t}\n", New: "\t\t\t\t\t\tif rawTagHash != 0 && attr.Hash == Type && o.KeepDefaultAttrVals {\n\t\t\t\t\t\t\trawTagMediatype = parse.Copy(val)\n\t\t\t\t\t\t}\n",
 		Rule: "R11.4", Construct: "type attribute recorded"})
 	mutant(&Mutant{Name: "c11-error-position-of-inner", Property: "C11", File: "html/html.go",
-		Old: "\t\t\tif err := m.MinifyMimetype(svgMimeBytes, w, buffer.NewReader(t.Data), inlineParams); err != nil {\n\t\t\t\tif err != minify.ErrNotExist {\n\t\t\t\t\treturn minify.UpdateErrorPosition(err, z, t.Offset)",
-		New: "\t\t\tif err := m.MinifyMimetype(svgMimeBytes, w, buffer.NewReader(t.Data), inlineParams); err != nil {\n\t\t\t\tif err != minify.ErrNotExist {\n\t\t\t\t\treturn err",
+		Old:  "\t\t\tif err := m.MinifyMimetype(svgMimeBytes, w, buffer.NewReader(t.Data), inlineParams); err != nil {\n\t\t\t\tif err != minify.ErrNotExist {\n\t\t\t\t\treturn minify.UpdateErrorPosition(err, z, t.Offset)",
+		New:  "\t\t\tif err := m.MinifyMimetype(svgMimeBytes, w, buffer.NewReader(t.Data), inlineParams); err != nil {\n\t\t\t\tif err != minify.ErrNotExist {\n\t\t\t\t\treturn err",
 		Rule: "R11.1", Construct: "case html.SvgToken"})
 }
 
 func runC11(c *Ctx) {
 	c.r111()
 	c.r114()
+	c.r115()
+}
+
+// R11.5: the data URI's payload minifier is looked up under the media type as parsed.
+func (c *Ctx) r115() {
+	const rule = "R11.5"
+	c.R.Rule(rule, "in minify.DataURI the media type handed to the registry lookup (first argument of m.Bytes / m.Minify…) is string(<the variable bound to the first result of parse.DataURI>) and no assignment to that variable can reach the lookup: shortening the media type for output (dropping the default text/plain, charset=us-ascii) must happen after the payload's minifier has been chosen from the declared type")
+	pk := c.pkg(rule, "")
+	if pk == nil {
+		return
+	}
+	info := pk.TypesInfo
+	fd := c.fn(rule, pk, "DataURI")
+	if fd == nil {
+		return
+	}
+	g := c.graph(pk, fd)
+	construct := "minify.DataURI/lookup under the parsed media type"
+	var parseN, lookupN *flow.Node
+	mediaVar := ""
+	for _, n := range g.Nodes {
+		if n.Kind != flow.KStmt || n.Ast() == nil {
+			continue
+		}
+		if as, ok := n.Stmt.(*ast.AssignStmt); ok && len(as.Rhs) == 1 && isCall(info, as.Rhs[0], load.ParseMod+".DataURI") != nil && len(as.Lhs) >= 1 {
+			parseN, mediaVar = n, str(as.Lhs[0])
+		}
+		if len(findCalls(info, n.Ast(), false, mBytes, mString, mMinify, mMimetype)) > 0 {
+			lookupN = n
+		}
+	}
+	if parseN == nil || lookupN == nil {
+		c.R.Unres(rule, construct, c.pos(fd), "parse.DataURI call or registry lookup not found")
+		return
+	}
+	call := findCalls(info, lookupN.Ast(), false, mBytes, mString, mMinify, mMimetype)[0]
+	arg := nospace(str(call.Args[0]))
+	var bad []string
+	if arg != "string("+mediaVar+")" && arg != mediaVar {
+		bad = append(bad, "the lookup uses "+str(call.Args[0])+", not the parsed media type "+mediaVar)
+	}
+	for _, n := range g.Nodes {
+		if n == parseN {
+			continue
+		}
+		if _, ok := assignsTo(n, func(l ast.Expr) bool { return str(l) == mediaVar }); ok {
+			if g.Path(flow.Search{From: []*flow.Node{n}, Goal: func(y *flow.Node) bool { return y == lookupN }}) != nil {
+				bad = append(bad, "the media type is rewritten at "+c.pos(n.Stmt)+" before the lookup: a payload declared text/plain (or with charset=us-ascii) is looked up under a different type than the one it declares")
+			}
+		}
+	}
+	c.R.Check(len(bad) == 0, rule, construct, c.pos(call), "m.Bytes(string("+mediaVar+"), …) with no rewrite in between", strings.Join(bad, "; "))
 }
 
 // R11.4: the type attribute of a raw-text element is recorded before the attribute can be skipped.
